@@ -244,11 +244,27 @@ pub(crate) fn apply_rules_on_link(
         // items in `queue` using rule CREATE, DELETE, MODIFY, ALLOW, REQUIRE and DISALLOW.
         // besides, use MATCH rule to filter other items.
         for rule in rules {
-            let filtered: BTreeSet<_> = queue
-                .iter()
-                .filter(|p| p.matches(rule.pattern().value()).unwrap_or(false))
-                .cloned()
-                .collect();
+            let filtered: BTreeSet<_> = if let ArtifactRule::Require(_) = rule {
+                // REQUIRE takes its argument as a literal path, not as a pattern
+                BTreeSet::new()
+            } else {
+                // a rule whose pattern cannot be interpreted makes verification fail
+                let pattern = glob::Pattern::new(rule.pattern().value())
+                    .map_err(|e| {
+                        Error::ArtifactRuleError(format!(
+                            "invalid pattern {:?} in rule {:?} of {}: {}",
+                            rule.pattern(),
+                            rule,
+                            item_name,
+                            e
+                        ))
+                    })?;
+                queue
+                    .iter()
+                    .filter(|p| pattern.matches(p.value()))
+                    .cloned()
+                    .collect()
+            };
             let consumed = match rule {
                 ArtifactRule::Create(_) => {
                     filtered.intersection(&created).cloned().collect()
